@@ -110,6 +110,8 @@ def items(events, case="lower", trailing_dangling=False):
             out.append(("doc", [f"Dangling before {i}."], None))
         if d and k != "module":
             out.append(("doc", doc_lines(ev, i), None))
+            if ev.get("docgap"):      # an ordinary comment between the doccomment and its command (the lexer skips it)
+                out.append(("comment", ev["docgap"]))
         nm = name_of(ev, i)
 
         def cmd(name, args):
